@@ -305,7 +305,8 @@ def main(argv):
   }
   if any_exhaustive:
     evidence["coverage"]["exhaustive"] = bool(exhaustive_ok and not skipped)
-  if replay_file is None:
+  # evidence describes /repo itself: a development run against a scratch tree (VERIF_REPO) never writes it
+  if replay_file is None and os.environ.get("VERIF_REPO", "/repo").rstrip("/") == "/repo":
     os.makedirs(os.path.join(core.VERIF_DIR, "evidence"), exist_ok=True)
     with open(os.path.join(core.VERIF_DIR, "evidence", f"{prop_id}.json"), "w") as f:
       json.dump(evidence, f, indent=1, default=core._json_default)  # pylint: disable=protected-access
